@@ -204,13 +204,15 @@ namespace {
          std::vector<int> h(std::size_t(d), 0);
          while (true) {
             opt.kick();
+            for (int prefilled = 0; prefilled <= 2; prefilled += 2)           // start from the empty container and from one with two members
             {
                ipr::impl::Lexicon lex;
                ipr::impl::Translation_unit unit{ lex };
                auto [add, seq] = make_container_and_adder(lex, unit);
                std::vector<const T*> model;
                for (auto& m : seq()) model.push_back(&m);            // members the container starts with (a declaration is its own first member)
-               std::string text;
+               for (int k = 0; k < prefilled; ++k) model.push_back(add(int(model.size())));
+               std::string text = prefilled ? "(two members to start with) " : "";
                bool bad = false;
                auto report = [&](const std::string& what, const char* key) {
                   std::vector<long long> ops(h.begin(), h.end());
@@ -329,7 +331,7 @@ int main(int argc, char** argv)
       if (opt.mine(job++)) table(rot);
       if (opt.mine(job++)) partial_states(rot);
    }
-   for (int k = 0; k < 11; ++k) if (opt.mine(job++)) all_sequence_histories(opt.thorough() ? 6 : 5, k);
+   for (int k = 0; k < 11; ++k) if (opt.mine(job++)) all_sequence_histories(opt.thorough() ? 5 : 4, k);
    if (opt.shard == 0) {
       util_string();
       rep.info("space", vf::JObj{}.num("factory_rows", (long long) zoo::rows().size()).num("operand_rotations", rots).str("states_per_entry", "as built; after its row set its links; after the table was built twice")
